@@ -21,12 +21,54 @@ Theorem C03_levels_partial :
 Proof. exact levels_partial. Qed.
 Print Assumptions C03_levels_partial.
 
+(* Belief soundness after EVERY operation, interrupted ones included.  A history item is an operation with an optional
+   interruption point: the caller catches an exception raised in the middle of the operation (transport error, timeout
+   that leaves the connection usable, asyncio cancellation) and goes on.  Points: every channel call of the navigation
+   (prompt query or escalate / deescalate line, the cut line executed by the device or not) and every line of the send
+   loop of open / send_command(s) / send_config(s) / acquire_priv / send_interactive.  After every operation, cut or
+   not, the belief is DUMMY or the device's mode.  [platform_check] contains the ORDER fact p_reset_first (generated
+   from the ast of acquire_priv / _process_acquire_priv: the reset to DUMMY precedes the escalate / deescalate call) and
+   evaluates the interrupted navigation under it; [hist_safe_i] excludes the finding's region, which an interruption
+   can also enter (belief DUMMY while the prompt is shared). *)
 Theorem C03_belief_sound :
   forall P, platform_check P = true -> forall m0 h,
-    In m0 (p_login P) -> forallb (op_neutral P) h = true -> hist_safe P (init P m0) h = true ->
-    Forall (fun t => belief_sound (snd t)) (run_hist P (init P m0) h).
-Proof. exact belief_sound_hist. Qed.
+    In m0 (p_login P) -> forallb (fun io => op_neutral P (fst io)) h = true -> hist_safe_i P (init P m0) h = true ->
+    Forall (fun t => belief_sound (snd t)) (run_hist_i P (init P m0) h).
+Proof. exact belief_sound_hist_i. Qed.
 Print Assumptions C03_belief_sound.
+
+(* ... and the user lines that did reach the device during a cut operation ran in the required level; operations that
+   were not cut have the full specification *)
+Theorem C03_levels_interrupted :
+  forall P, platform_check P = true -> forall m0 h,
+    In m0 (p_login P) -> forallb (fun io => op_neutral P (fst io)) h = true -> hist_safe_i P (init P m0) h = true ->
+    Forall (step_good_i P) (run_hist_i P (init P m0) h).
+Proof. exact levels_hist_i. Qed.
+Print Assumptions C03_levels_interrupted.
+
+(* histories without interruption points are the plain histories of C03_levels_partial *)
+Theorem C03_plain_histories : forall P h s, run_hist_i P s (map (fun o => (o, None)) h) = run_hist P s h.
+Proof. exact run_hist_i_plain. Qed.
+Print Assumptions C03_plain_histories.
+
+(* one interrupted operation from ANY state satisfying the invariant *)
+Theorem C03_interrupted_step :
+  forall P, platform_check P = true -> forall s o pt s' seg,
+    Inv P s -> op_neutral P o = true -> run_op_int P s o pt = Some (s', seg) ->
+    belief_sound s' /\ seg_at (req_level P s o) seg /\ (st_safe P s' = true -> Inv P s').
+Proof. exact int_ok. Qed.
+Print Assumptions C03_interrupted_step.
+
+(* the order fact is necessary: with the reset AFTER the step the same statement is false (witness: send_configs cut
+   while "configure terminal" is in flight leaves the belief at privilege_exec with the device in configuration) *)
+Theorem C03_reset_after_refuted : ~ C03_int_without_order.
+Proof. exact int_without_order_refuted. Qed.
+Print Assumptions C03_reset_after_refuted.
+
+(* tie of the order to the current source tree *)
+Theorem C03_generated_order : gen_reset_first = true /\ forallb p_reset_first gen_platforms = true.
+Proof. split; vm_compute; reflexivity. Qed.
+Print Assumptions C03_generated_order.
 
 (* one operation from ANY state satisfying the invariant (not only states reached from login) *)
 Theorem C03_step :
